@@ -564,18 +564,17 @@ def takePenalty (c : Cfg) (s : St) (val : Val) (amount : Int) : Option (St × Va
   let pens : List (Addr × Int) := (0, selfPen) :: val.dlgs.map (fun x => (x.d, per * x.stake))
   let (q, p1, pens1) := penQueue val.addr s.queue amount pens
   let selfShare := ((pens1.find? (·.1 == 0)).map (·.2)).getD 0
-  if p1 > 0 then
-    let take := if selfShare > 0 then imin val.selfToken selfShare else 0
-    let (st, ss, tok, stk, p2) :=
-      if take > 0 then
-        let nt := val.selfToken - take
-        let ns := nt / c.unit
-        (nt, ns, val.token - take, val.stake - (val.selfStake - ns), p1 - take)
-      else (val.selfToken, val.selfStake, val.token, val.stake, p1)
-    let (dl, _, tok', stk') := penDlgs c.unit (pens1.filter (·.1 != 0)) val.dlgs p2 tok stk
-    some ({ s with queue := q }, { val with selfToken := st, selfStake := ss, token := tok', stake := stk', dlgs := dl })
-  else
-    some ({ s with queue := q }, val)
+  let take := if selfShare > 0 then imin val.selfToken selfShare else 0
+  let (st, ss, tok, stk, p2) :=
+    if take > 0 then
+      let nt := val.selfToken - take
+      let ns := nt / c.unit
+      (nt, ns, val.token - take, val.stake - (val.selfStake - ns), p1 - take)
+    else (val.selfToken, val.selfStake, val.token, val.stake, p1)
+  let (dl, _, tok', stk') := penDlgs c.unit (pens1.filter (·.1 != 0)) val.dlgs p2 tok stk
+  -- the deposits are only touched when the withdraw queue did not cover the penalty
+  let nv := if p1 > 0 then { val with selfToken := st, selfStake := ss, token := tok', stake := stk', dlgs := dl } else val
+  some ({ s with queue := q }, nv)
 
 /-- `doPenalize` (inactive / double sign: offline + expelled) -/
 def penalize (c : Cfg) (s : St) (a : Addr) (amount : Int) : St × Res :=
